@@ -417,6 +417,9 @@ package plenccodec
 //@   # the repeated-field form (one element per occurrence of the field, wire type 2) is handed to readAsWTLength whole
 //@   ensures[C12,C10] wt == 2 ==> called_WTLengthSliceWrapper_readAsWTLength && n == call_WTLengthSliceWrapper_readAsWTLength_r0 && err == call_WTLengthSliceWrapper_readAsWTLength_r1 && len(call_WTLengthSliceWrapper_readAsWTLength_arg1) == len(data) && call_WTLengthSliceWrapper_readAsWTLength_arg2 == ptr
 //@   ensures[C10,C01] wt != 2 && err == nil ==> loopdone_2 || (called_ReadVarUint && call_ReadVarUint_r0 == 0 && loadi64(ptr + 8) == 0)    # ... or nothing was to be read and the target is empty
+//@   # acceptance: the reader's own errors are an unreadable count or entry length, and a count or length that
+//@   # overruns the data; everything else is an element's error
+//@   atcall fmt.Errorf [C01,C03] called_ReadVarUint && (call_ReadVarUint_r1 <= 0 || call_ReadVarUint_r0 > uint64(len(call_ReadVarUint_arg0) - call_ReadVarUint_r1))
 
 //@ func plenccodec.WTLengthSliceWrapper.readAsWTLength
 //@   safety C04 C11
@@ -473,6 +476,10 @@ package plenccodec
 //@   loop 1 step[C03] called_Skip ==> !called_Codec_Read && (call_ReadTag_r1 >= len(c.fieldsByIndex) || c.fieldsByIndex[call_ReadTag_r1].codec == nil)
 //@   # success is reported only when every field of the data has been handled (the loop ran to the end of the data)
 //@   ensures[C03,C01] err == nil ==> loopdone_1 || len(data) == 0
+//@   # acceptance ("decodes without error"): the reader makes an error of its own only for a tag or length prefix that
+//@   # cannot be read, a length prefix that overruns the data, an unknown field that Skip rejects, or a field its codec
+//@   # rejects - never for an index, a wire type or an order of fields it does not expect
+//@   atcall fmt.Errorf [C03] call_ReadTag_r2 <= 0 || (called_Skip && call_Skip_r1 != nil) || (called_ReadVarUint && (call_ReadVarUint_r1 <= 0 || call_ReadVarUint_r0 > uint64(l - offset))) || (called_Codec_Read && call_Codec_Read_r1 != nil)
 
 //@ func plenccodec.*MapCodec.Read
 //@   safety C04 C11
@@ -486,6 +493,9 @@ package plenccodec
 //@   loop 1 step[C10,C01] called_MapCodec_readMapEntry && count == head_count - 1 && len(call_MapCodec_readMapEntry_arg3) == int(call_ReadVarUint_r0) && call_MapCodec_readMapEntry_arg1 == mp
 //@   loop 1 entry[C10,C01] mp == loadptr(ptr) && mp != nil       # entries go into the map the target holds (made if there was none)
 //@   ensures[C10,C01] err == nil ==> loopdone_1 || len(data) == 0
+//@   # acceptance: the reader's own errors are an unreadable count or entry length, and a count or length that
+//@   # overruns the data; everything else is an entry's error
+//@   atcall fmt.Errorf [C01,C03] called_ReadVarUint && (call_ReadVarUint_r1 <= 0 || call_ReadVarUint_r0 > uint64(len(call_ReadVarUint_arg0) - call_ReadVarUint_r1))
 
 //@ func plenccodec.*MapCodec.readMapEntry
 //@   safety C04 C11 C10
